@@ -69,3 +69,30 @@ Theorem C04_evaluate_resets_all : forall D hcode tst st c F n,
   drain_items2 D hcode tst F n (evaluate2 st) c = drain_items2 D hcode tst F n (fresh2 (config_of2 st)) c.
 Proof. exact evaluate_resets2. Qed.
 Print Assumptions C04_evaluate_resets_all.
+
+(* ------------------------------------------------------------------ *)
+(* CURSOR LEVEL, the whole evaluator (Model1/Iter3.v): from ANY state an earlier Evaluate left in
+   the query tree (Evaluate resets), a Select run delivers the list-level result and leaves the
+   shared context node where it was. *)
+From XP.Model1 Require Import Iter3.
+From XP.Proofs Require Import IterRefine3.
+
+Theorem C04_cursor_level_any_state_all : forall D has_ns hc rm rn rr q
+    (wf : m1_supported q = true) (ns : is_ns q = true) c l s,
+  sel D has_ns hc rm rn rr q c = Val l ->
+  exists F0, forall F n, F0 <= F -> List.length l < n ->
+    exists st', run3 D has_ns hc rm rn rr F n (existT _ q (reset3 q s)) c = (l, E_nil, st', c).
+Proof. exact m1_refines_after_evaluate. Qed.
+Print Assumptions C04_cursor_level_any_state_all.
+
+(* FROM THE TEXT: after any history of Select / Evaluate / Dirty operations on the compiled
+   expression every operation observes what a fresh compilation of the same text observes *)
+From XP Require Import Parse Build.
+From XP.Proofs Require Import EndToEndTotal.
+
+Theorem C04_text_history_independence : forall re_ok rm rn rr hcode text ns q q',
+  compile re_ok text ns = Ok q -> compile re_ok text ns = Ok q' ->
+  forall (h : list op) (o : op),
+    snd (Purity.step rm rn rr hcode (Purity.run rm rn rr hcode h (mkExpr q [])) o) = snd (Purity.step rm rn rr hcode (mkExpr q' []) o).
+Proof. exact C04_text_history_independent. Qed.
+Print Assumptions C04_text_history_independence.
